@@ -64,6 +64,7 @@ struct Ex<'tcx> {
     type_ix: HashMap<Ty<'tcx>, usize>,
     adts_seen: Vec<DefId>,
     adts_set: std::collections::HashSet<DefId>,
+    in_promoted: bool,
 }
 
 impl<'tcx> Ex<'tcx> {
@@ -685,8 +686,62 @@ impl<'tcx> Ex<'tcx> {
                 data.is_cleanup
             ));
         }
-        let _ = write!(o, ",\"blocks\":{}}}", jlist(blocks));
+        let _ = write!(o, ",\"blocks\":{}", jlist(blocks));
+        // promoted constants of this body (tiny straight-line bodies)
+        let mut proms = Vec::new();
+        if !self.in_promoted {
+            self.in_promoted = true;
+            let pm = tcx.promoted_mir(did);
+            for pb in pm.iter() {
+                proms.push(self.raw_body_json(pb, env));
+            }
+            self.in_promoted = false;
+        }
+        let _ = write!(o, ",\"promoted\":{}}}", jlist(proms));
         Some(o)
+    }
+
+    fn raw_body_json(&mut self, body: &Body<'tcx>, env: ty::TypingEnv<'tcx>) -> String {
+        let tcx = self.tcx;
+        let mut locals = Vec::new();
+        for (_l, d) in body.local_decls.iter_enumerated() {
+            let ti = self.ty(d.ty);
+            locals.push(format!("[{},null,{}]", ti, d.mutability.is_mut()));
+        }
+        let mut blocks = Vec::new();
+        for (_bb, data) in body.basic_blocks.iter_enumerated() {
+            let mut stmts = Vec::new();
+            for st in data.statements.iter() {
+                if let StatementKind::Assign(b) = &st.kind {
+                    let (p, rv) = &**b;
+                    stmts.push(format!(
+                        "{{\"s\":\"assign\",\"place\":{},\"rvalue\":{},\"sp\":null,\"ex\":null}}",
+                        self.place_json(p, body),
+                        self.rvalue_json(rv, body, env)
+                    ));
+                }
+            }
+            let term = data.terminator();
+            let tj = match &term.kind {
+                TerminatorKind::Goto { target } => format!("{{\"t\":\"goto\",\"target\":{}}}", target.as_u32()),
+                TerminatorKind::Return => "{\"t\":\"return\"}".to_string(),
+                TerminatorKind::Assert { cond, expected, msg, target, .. } => format!(
+                    "{{\"t\":\"assert\",\"cond\":{},\"expected\":{},\"msg\":{},\"target\":{}}}",
+                    self.op_json(cond, body, env),
+                    expected,
+                    self.assert_json(msg, body, env),
+                    target.as_u32()
+                ),
+                other => format!("{{\"t\":\"other\",\"d\":{}}}", esc(&format!("{:?}", other))),
+            };
+            blocks.push(format!("{{\"stmts\":{},\"term\":{},\"cleanup\":false}}", jlist(stmts), tj));
+        }
+        let _ = tcx;
+        format!(
+            "{{\"arg_count\":0,\"locals\":{},\"blocks\":{}}}",
+            jlist(locals),
+            jlist(blocks)
+        )
     }
 
     fn adt_json(&mut self, did: DefId) -> String {
@@ -791,6 +846,7 @@ fn export(tcx: TyCtxt<'_>) {
         type_ix: HashMap::new(),
         adts_seen: Vec::new(),
         adts_set: Default::default(),
+        in_promoted: false,
     };
     let mut bodies = Vec::new();
     for ldid in tcx.hir_body_owners() {
